@@ -24,7 +24,9 @@ func GlobExpand(paths []string, recursive bool) <-chan string {
 			} else {
 				expanded, err := filepath.Glob(p)
 				if err != nil {
+					// Not a usable pattern: treat it as a literal path, like a pattern that matches nothing
 					logger.Printf("Path error: %v", err)
+					c <- p
 				} else if len(expanded) > 0 {
 					for _, item := range expanded {
 						c <- item
